@@ -960,6 +960,21 @@ func runC01() {
 		return
 	}
 	if c.Replay != "" {
+		var ac AutoCase
+		if err := readReplay(c, &ac); err == nil && ac.Auto {
+			out, err := execAuto(w, ac)
+			if err != nil {
+				c.Inconclusive(err.Error())
+				return
+			}
+			dumpRecords(out.Records)
+			vs, _ := checkAuto(out)
+			for _, v := range vs {
+				fmt.Fprintf(os.Stdout, "VIOLATION %s/%s: %s\n", v.Rule, v.Class, v.Detail)
+				c.Violation(v.Rule, v.Class, v.Detail, 0, nil)
+			}
+			return
+		}
 		var cs C01Case
 		if err := readReplay(c, &cs); err != nil {
 			c.Inconclusive("replay: " + err.Error())
@@ -979,6 +994,7 @@ func runC01() {
 		}
 		return
 	}
+	runAutoScenarios(c, w)
 	seqs, ks, all := c01Plan(c.Tier)
 	type job struct {
 		idx int64
@@ -1048,6 +1064,61 @@ func runC01() {
 		if samples < 2 && cs.K > 1 {
 			c.Sample(map[string]interface{}{"k": cs.K, "callers": cs.Callers, "lock_order": order})
 			samples++
+		}
+	}
+}
+
+// runAutoScenarios runs this batch's share of the auto-stop scenarios, all at once (each one
+// mostly sleeps on a real timer of the code under test), before the request sequences.
+func runAutoScenarios(c *vlib.Ctx, w *envlab.World) {
+	nb := c.NBatch
+	if nb < 1 {
+		nb = 1
+	}
+	type res struct {
+		id  int64
+		ac  AutoCase
+		out *autoOutcome
+		err error
+	}
+	var wg sync.WaitGroup
+	var mu sync.Mutex
+	var all []res
+	for i := c.Batch; i < autoTotal(c.Tier); i += nb {
+		ac := genAuto(int64(i))
+		id := c.Case(ac)
+		wg.Add(1)
+		go func() {
+			defer wg.Done()
+			out, err := execAuto(w, ac)
+			mu.Lock()
+			all = append(all, res{id, ac, out, err})
+			mu.Unlock()
+		}()
+	}
+	wg.Wait()
+	for _, r := range all {
+		if r.err != nil {
+			c.Inconclusive(fmt.Sprintf("auto-stop scenario %d: %v", r.ac.Idx, r.err))
+			continue
+		}
+		vs, cnt := checkAuto(r.out)
+		if len(vs) == 0 && r.out.Anomaly != "" {
+			c.Inconclusive(fmt.Sprintf("auto-stop scenario %d (%s): %s", r.ac.Idx, r.ac.Variant, r.out.Anomaly))
+			continue
+		}
+		for k, n := range cnt {
+			c.Count(k, n)
+		}
+		c.Nontrivial(vlib.Hash("auto", r.ac.Variant, r.ac.PrefixRun, r.ac.LateFail, r.ac.TimeoutMs))
+		seen := map[string]bool{}
+		for _, v := range vs {
+			if seen[v.Class] {
+				continue
+			}
+			seen[v.Class] = true
+			c.Violation(v.Rule, v.Class, v.Detail, r.id, map[string]interface{}{"case": r.ac,
+				"records_around": slimRecords(window(r.out.Records, v.Seq, 45, 8))})
 		}
 	}
 }
